@@ -414,6 +414,13 @@ func (w *c27Worker) runCase(cfg c27Cfg, script []string) int {
 			}
 		}
 		r.Event("removal_checks", 1)
+		// R4 (progress contract with run()): shouldRetry=false sends the loop to sleep until the
+		// next enqueue, so it may only be returned when nothing is queued any more; entries are
+		// enqueued between calls here, never during one
+		if !retry && nh != len(sizes)+1 {
+			fail("sleeps_with_backlog", "R4", "retry_false", fmt.Sprintf("call %d returned shouldRetry=false (run() then waits for the next enqueue) although P%d..P%d are still queued", call, nh, len(sizes)))
+		}
+		r.Event("retry_contract_checks", 1)
 		if late[call] {
 			enqueue()
 		}
